@@ -530,17 +530,23 @@ func runC14(c *harness.Ctx) {
 			padField = 8192
 			what = "PADLEN 8192 (accept)"
 		}
-		c.Info["bad"] = what
+		// an oversize PADLEN is either followed by as much padding as it
+		// announces (must still be refused) or by a little and then silence
+		// (must be refused at once, not only when the handshake deadline expires)
+		deliverAll := padField > 8192 && padField <= 70000 && t.Draw("deliverall", 2) == 1
+		c.Info["bad"], c.Info["announced_padding_delivered"] = what, deliverAll
+		t0 := c.S.Now()
 		c.S.Go("r/peer", func() {
 			sent := 300
-			if padField == 8192 {
-				sent = 8192
+			if padField == 8192 || deliverAll {
+				sent = int(padField)
 			}
 			refHandshake(refConn, !realIsClient, sent, magic, padField)
 			// keep the link open; the real side must decide by itself
 			c.S.Sleep(2 * time.Minute)
 		})
 		c.S.Run(func() bool { return dialDone || wrapDone }, 90*time.Second)
+		took := c.S.Now() - t0
 		c.Reached, c.Nontrivial = true, true
 		done, err := dialDone, dialErr
 		if !realIsClient {
@@ -553,7 +559,9 @@ func runC14(c *harness.Ctx) {
 		} else if !done {
 			c.Violate("C14/invalid-handshake-not-rejected", "%s: handshake call still pending after 90 virtual seconds", what)
 		} else if err == nil {
-			c.Violate("C14/invalid-handshake-accepted", "%s: handshake completed", what)
+			c.Violate("C14/invalid-handshake-accepted", "%s (announced padding delivered: %v): handshake completed", what, deliverAll)
+		} else if took > 5*time.Second {
+			c.Violate("C14/invalid-handshake-rejected-late", "%s: the header was invalid from its first 24 bytes, yet the handshake call only failed after %v (%v): it kept waiting for what the peer announced", what, took, err)
 		}
 	}
 	ending = true
